@@ -42,7 +42,7 @@ def cases(draw, loopless=False):
     sel = draw(st.lists(st.integers(0, max(0, n - 1)), min_size=1, max_size=max(1, n), unique=True)) if n else []
     return {
         "spec": spec,
-        "path": draw(st.sampled_from(build.BUILD_PATHS)),
+        "path": draw(st.sampled_from(build.BUILD_PATHS_LP)),
         "list_mode": mode,
         "sel": sel,
         "fraction": draw(st.sampled_from([1, 1, 1, 0, 0.5, 0.9])),
@@ -89,7 +89,9 @@ def check_case(case, ctx):
     if not rids_all:
         return {"nontrivial": False, "classes": ["empty-model"]}
     if case["list_mode"] == "none":
-        arg, want_ids = None, rids_all
+        arg, want_ids = None, [r.id for r in model.reactions]  # the model's list order (a build path may have reordered it)
+        if sorted(want_ids) != sorted(rids_all):
+            _v("frame-shape", f"model.reactions {want_ids} but the spec has {rids_all}")
     else:
         want_ids = [rids_all[i] for i in case["sel"]]
         if case["list_mode"] == "objs":
